@@ -215,7 +215,19 @@ Record rt_case := {
   r_full : bytes;             (* ipc.Writer output for the batch (schema msg, dict msgs, batch msg, EOS) *)
   r_schema_only : bytes       (* ipc.Writer output for the bare schema (schema msg, EOS) *)
 }.
-Inductive input := IPtr (c : ptr_case) | IRt (c : rt_case) | ISkip (buf : bytes).
+(* one write of a history on ONE segment.  The segment memoises the schema message of the fast
+   path in schemaCache, keyed by the identity of the *arrow.Schema object: [w_key] is that
+   identity (two writes carry the same key iff they passed the very same schema object). *)
+Record wr := {
+  w_key : N;
+  w_schema : list ty;          (* schema shape, as the layout discriminators see it *)
+  w_sm : bytes;                (* ipc.Writer's schema message for this write's schema (schema-only stream minus EOS) *)
+  w_body : bytes;              (* ipc.Writer's dictionary + record-batch messages for this write's batch *)
+  w_md : meta;                 (* the batch's custom metadata *)
+  w_alloc : option (Z * Z)     (* allocator oracle *)
+}.
+Record hist_case := { h_size : Z; h_name : bytes; h_writes : list wr }.
+Inductive input := IPtr (c : ptr_case) | IRt (c : rt_case) | ISkip (buf : bytes) | IHist (c : hist_case).
 
 Inductive robs :=
 | OUnchanged | OErrOff | OErrLen | OErrClosed | OErrRecovered | OErrOther | OPanic
@@ -224,7 +236,9 @@ Inductive robs :=
 Inductive obs :=
 | OPtr (r : robs) (after_ok : bool)
 | ORt (replaced werr : bool) (ptr_rows : Z) (ptr_md : meta) (stored : bytes) (r : robs)
-| OSkip (k : option Z).
+| OSkip (k : option Z)
+| OHist (ws : list wobs)
+with wobs := WObs (replaced : bool) (stored : bytes) (r : robs).
 
 (* A slot (o, l, e): the region (o, l) was written by MaybeWriteToShm; it decodes to the written
    batch, and so does every region (o, l') with 0 <= e <= l' (e < 0: no longer region is predicted).
@@ -277,11 +291,74 @@ Definition run_rt (c : rt_case) : obs :=
       end
   end.
 
+(* ---- histories on one segment: the schema-message cache --------------------- *)
+Definition wfull (w : wr) : bytes := w_sm w ++ w_body w ++ EOS.    (* ipc.Writer's complete stream *)
+Definition wso (w : wr) : bytes := w_sm w ++ EOS.                  (* writeSchemaOnlyStream *)
+Definition cache := list (N * bytes).
+Fixpoint cache_get (k : N) (c : cache) : option bytes :=
+  match c with [] => None | (k', v) :: t => if (k' =? k)%N then Some v else cache_get k t end.
+(* cachedSchemaBytes on a miss: the schema-only stream minus its trailing EOS *)
+Definition cached_prefix (so : bytes) : option bytes :=
+  if (zlen so <? zlen EOS) || negb (has_suffix EOS so) then None
+  else Some (sub so 0 (zlen so - zlen EOS)).
+(* AllocateAndWrite: what is stored, and the cache afterwards.  A write that obtained no
+   region ([w_alloc] = None: canFitLocked refused) returns before touching the cache. *)
+Definition write_step (c : cache) (w : wr) : cache * wres :=
+  match w_alloc w with
+  | None => (c, WErr)
+  | Some _ =>
+      match writer_layout (w_schema w) with
+      | WStripped => (c, strip_stream (wfull w))
+      | WFull => (c, WBytes (wfull w))
+      | WFast =>
+          match cache_get (w_key w) c with
+          | Some sm => (c, WBytes (sm ++ w_body w ++ EOS))
+          | None =>
+              match cached_prefix (wso w) with
+              | None => (c, WErr)
+              | Some sm => ((w_key w, sm) :: c, WBytes (sm ++ w_body w ++ EOS))
+              end
+          end
+      end
+  end.
+Fixpoint run_writes (c : cache) (ws : list wr) : list wres :=
+  match ws with
+  | [] => []
+  | w :: t => let cr := write_step c w in snd cr :: run_writes (fst cr) t
+  end.
+(* what a write stores on a segment that has seen nothing before *)
+Definition fresh_store (w : wr) : wres :=
+  match w_alloc w with None => WErr | Some _ => stored_region (w_schema w) (wfull w) end.
+
+Definition wobs_of (size : Z) (name : bytes) (w : wr) (res : wres) : wobs :=
+  match w_alloc w, res with
+  | Some (off, len), WBytes st =>
+      let pmd := ptr_md_of off (zlen st) (w_md w) in
+      WObs true st
+        (match resolve true false size name 0 pmd with
+         | Read o l md' =>
+             match reader_input (w_schema w) (wso w) st with
+             | Some ri => OResolved o md' (beqb ri (wfull w) && (l =? zlen st))
+             | None => OErrOther
+             end
+         | other => robs_of [] other
+         end)
+  | _, _ => WObs false [] OUnchanged     (* same batch handed back; it has rows, so it is no pointer *)
+  end.
+Fixpoint zip_wobs (size : Z) (name : bytes) (ws : list wr) (rs : list wres) : list wobs :=
+  match ws, rs with
+  | w :: ws', r :: rs' => wobs_of size name w r :: zip_wobs size name ws' rs'
+  | _, _ => []
+  end.
+Definition run_hist (c : hist_case) : obs :=
+  OHist (zip_wobs (h_size c) (h_name c) (h_writes c) (run_writes [] (h_writes c))).
+
 Definition model (i : input) : obs :=
   match i with
   | IPtr c => OPtr (run_ptr c) true
   | IRt c => run_rt c
   | ISkip b => OSkip (skip_msg b)
+  | IHist c => run_hist c
   end.
 
 Definition robs_eqb (m o : robs) : bool :=
@@ -299,6 +376,9 @@ Definition obs_eqb (m o : obs) : bool :=
   | ORt p1 w1 n1 m1 s1 r1, ORt p2 w2 n2 m2 s2 r2 =>
       Bool.eqb p1 p2 && Bool.eqb w1 w2 && (n1 =? n2) && md_eqb m1 m2 && beqb s1 s2 && robs_eqb r1 r2
   | OSkip a, OSkip b => opt_eqb Z.eqb a b
+  | OHist a, OHist b =>
+      list_eqb (fun x y => match x, y with WObs p1 s1 r1, WObs p2 s2 r2 =>
+                  Bool.eqb p1 p2 && beqb s1 s2 && robs_eqb r1 r2 end) a b
   | _, _ => false
   end.
 
@@ -331,6 +411,33 @@ Definition spec_ptr (seg closed : bool) (size : Z) (name : bytes) (rows : Z) (md
        | None => is_err r      (* malformed / negative / overflowing / out of segment: an error, nothing else *)
        end.
 
+(* premise on a history: a cache key identifies the schema message (same *arrow.Schema object,
+   same schema) *)
+Definition key_sound_b (ws : list wr) : bool :=
+  forallb (fun w1 => forallb (fun w2 => negb (w_key w1 =? w_key w2)%N || beqb (w_sm w1) (w_sm w2)) ws) ws.
+(* the property for ONE write of a history, with no reference to the other writes: it was
+   replaced and its pointer resolves to the batch that this write passed in *)
+Definition spec_w (size : Z) (name : bytes) (w : wr) (o : wobs) : bool :=
+  match o with WObs replaced stored r =>
+    match w_alloc w with
+    | None => negb replaced && match r with OUnchanged => true | _ => false end
+    | Some (off, len) =>
+        if negb ((c35_header_size <=? off) && (off + len <=? size) && (len =? zlen stored)) then true else
+        if negb (framing_ok (w_schema w) (wfull w) (wso w)) then true else
+        if has_key c35_k_loglevel (w_md w) then true else
+        replaced && match r with
+                    | OResolved o' md' eq => (o' =? off) && eq && md_eqb md' (resolved_md (w_md w) name)
+                    | _ => false
+                    end
+    end
+  end.
+Fixpoint spec_ws (size : Z) (name : bytes) (ws : list wr) (os : list wobs) : bool :=
+  match ws, os with
+  | [], [] => true
+  | w :: ws', o :: os' => spec_w size name w o && spec_ws size name ws' os'
+  | _, _ => false
+  end.
+
 Definition spec_ok (i : input) (o : obs) : bool :=
   match i, o with
   | IPtr c, OPtr r after_ok =>
@@ -361,5 +468,8 @@ Definition spec_ok (i : input) (o : obs) : bool :=
                    end
             end)
   | ISkip _, OSkip _ => true
+  | IHist c, OHist os =>
+      negb (size_ok (h_size c)) || negb (key_sound_b (h_writes c))
+      || spec_ws (h_size c) (h_name c) (h_writes c) os
   | _, _ => false
   end.
